@@ -18,7 +18,7 @@ func init() { register(c01{}) }
 
 func (c01) ID() string { return "C01" }
 func (c01) Cases(t fw.Tier) int {
-	return tierN(t, 40000, 1000000)
+	return tierN(t, 40000, 1200000)
 }
 func (c01) Rule() string {
 	return "each case generates a draft 2020-12 schema document (raw JSON, sent through Schema.UnmarshalJSON and Resolve) with the grouped keyword generator: 2-4 keywords of one interaction group " +
